@@ -73,11 +73,20 @@ def behaviour_listings(maxlen):
     return out
 
 
-def compare_behaviour(pairs, tier):
-    """pairs: list of (macro rule, inlined rule); returns 'same'/'different' per pair."""
+def compare_behaviour(pairs, tier, witnesses=()):
+    """pairs: list of (macro rule, inlined rule); returns 'same'/'different' per pair.
+
+    The listing universe holds, besides all short sequences over a fixed instruction set, the witness listings TLC
+    derived from the inlined rules (JasmSyntax!Witness), so that every reference rule is found on some listing."""
     if not pairs:
         return []
     lsts = behaviour_listings(2 if tier == "quick" else 3)
+    seen = set()
+    for w in witnesses:
+        key = json.dumps(w)
+        if w and key not in seen:
+            seen.add(key)
+            lsts.append(w)
     rules = []
     for mac, inl in pairs:
         rules.append(dict(mac, id=len(rules)))
@@ -147,7 +156,7 @@ def run(prop, tier):
     verdicts = validate(cases, report, f"{prop}-1")
     need = [n for n, v in enumerate(verdicts) if v == "need:behaviour"]
     if need:
-        res = compare_behaviour([(comp[n][2], comp[n][3]) for n in need], tier)
+        res = compare_behaviour([(comp[n][2], comp[n][3]) for n in need], tier, [docs[n].get("witness", []) for n in need])
         for n, r in zip(need, res):
             cases[n]["behaviour"] = r
         v2 = validate([cases[n] for n in need], report, f"{prop}-2")
